@@ -4422,8 +4422,9 @@ impl WasmGenerator {
     /// where f64 1.0 should become i64 1, not i64 0x3FF0000000000000.
     fn emit_value_load_as_numeric_i64(&mut self, value: &VPtr, func: &mut Function) {
         use wasm_encoder::Instruction as W;
-        let actual = self.infer_value_type(value);
-        self.emit_value_load(value, func);
+        // a tuple/record field (GetElement register) is an address: the index is the element it points to
+        let actual = self.infer_operand_value_type(value);
+        self.emit_value_load_typed(value, actual, func);
         if actual == ValType::F64 {
             func.instruction(&W::I64TruncSatF64S);
         }
